@@ -6,6 +6,7 @@ CONSTANTS
   PatchKinds = {"plain2", "cfi", "cfistate", "loop"}
   FnLayouts = {"none", "one"}
   EndSyms = {FALSE}
+  NoSyms = {FALSE}
   AnnModes = {"none"}
   WithProxyDel = TRUE
   CfiLayouts = {"none", "proc_all", "proc_each", "proc_rs"}
